@@ -1105,7 +1105,8 @@ impl Formatter {
             Pattern::Binding(name) => self.writer.write(name),
             Pattern::Literal(lit) => self.format_literal(lit),
             Pattern::Constructor(name, patterns) => {
-                self.writer.write(name);
+                // The parser stores qualified patterns as `Type::Variant`; the surface syntax is `Type.Variant`.
+                self.writer.write(&name.replace("::", "."));
                 if !patterns.is_empty() {
                     self.writer.write("(");
                     for (i, p) in patterns.iter().enumerate() {
